@@ -33,8 +33,8 @@ STUBS = [
     "(file contents arbitrary); the path itself is a real temporary file that is rewritten (new mtime, new bytes) between loads",
 ]
 OUTSIDE = [
-    "the format readers (np.load, astropy.io.fits, np.loadtxt, csv sniffing, pandas): C / third-party parsers; "
-    "the first sentence of the statement is not decided here",
+    "the format decoders (np.load, astropy.io.fits, text sniffing): C / third-party parsers - the first sentence of the statement is covered by a "
+    "concrete witness layer (boundary values of eight dtypes, scaled FITS, five text layouts), not symbolically",
 ]
 ASSUMPTIONS = ["rewriting a file changes its modification time (at the nanosecond resolution os.stat reports) or its size (file-system contract); "
                "rewrites that leave both unchanged are outside the claim"]
